@@ -1109,7 +1109,9 @@ impl Dicts {
     }
 }
 
-const CONTEXT: &[&str] = &["あ", "い", "円", "人", "日", "個", "月", "年", "節", "c", "-", " ", "x", "あい", "円あ"];
+// (the last six are dictionary words of lexicon variants >= 2 that merely START with a kanji numeral: directly after a
+// numeral they must end the numeric run - their characters have no numeric class in common)
+const CONTEXT: &[&str] = &["あ", "い", "円", "人", "日", "個", "月", "年", "節", "c", "-", " ", "x", "あい", "円あ", "千葉", "十分", "百合", "万一", "九州", "一人"];
 
 struct Segment {
     b: usize, // char offsets
